@@ -172,12 +172,16 @@ ENTRIES += [
       "        if self._active_connection:\n            self._active_connection.reset()\n", "        if self._active_connection:\n            self._secondary_connection.reset()\n")]},
 ]
 
-_INT_NEW = "        while True:\n            self._response = response = yield from stream.read_response()\n\n            if not 100 <= response.status_code <= 199 \\\n                    or response.status_code == 101:\n                break\n\n            # An interim response (100 Continue, 103 Early Hints) precedes\n            # the response to this request; it is not that response.\n            _logger.debug('Got interim response {0}.'.format(response))\n\n        response.request = request\n"
+_INT_NEW = "        read_callback = functools.partial(self.event_dispatcher.notify, self.Event.response_data)\n        header_data = []\n        header_callback = header_data.append\n        stream.data_event_dispatcher.add_read_listener(header_callback)\n\n        while True:\n            del header_data[:]\n            self._response = response = yield from stream.read_response()\n\n            if not 100 <= response.status_code <= 199 \\\n                    or response.status_code == 101:\n                break\n\n            # An interim response (100 Continue, 103 Early Hints) precedes\n            # the response to this request; it is not that response and\n            # its bytes are not reported as part of it.\n            _logger.debug('Got interim response {0}.'.format(response))\n\n        stream.data_event_dispatcher.remove_read_listener(header_callback)\n\n        for data in header_data:\n            read_callback(data)\n\n        stream.data_event_dispatcher.add_read_listener(read_callback)\n        response.request = request\n"
+_INT_OLD = "        read_callback = functools.partial(self.event_dispatcher.notify, self.Event.response_data)\n        stream.data_event_dispatcher.add_read_listener(read_callback)\n\n        self._response = response = yield from stream.read_response()\n        response.request = request\n"
+_INT_LOOP_ATTACHED = "        read_callback = functools.partial(self.event_dispatcher.notify, self.Event.response_data)\n        stream.data_event_dispatcher.add_read_listener(read_callback)\n\n        while True:\n            self._response = response = yield from stream.read_response()\n\n            if not 100 <= response.status_code <= 199 \\\n                    or response.status_code == 101:\n                break\n\n        response.request = request\n"
+_INT_NO_CLEAR = _INT_NEW.replace("            del header_data[:]\n", "")
 ENTRIES += [
-    {'id': 'C08/regress-interim-response-returned', 'prop': 'C08', 'kind': 'break', 'expect': 'C08-D2', 'edits': [(HC, _INT_NEW,
-      "        self._response = response = yield from stream.read_response()\n        response.request = request\n")]},
-    {'id': 'C04/regress-interim-response-returned', 'prop': 'C04', 'kind': 'break', 'expect': 'C04-D7', 'edits': [(HC, _INT_NEW,
-      "        self._response = response = yield from stream.read_response()\n        response.request = request\n")]},
-    {'id': 'C08/benign-interim-loop-other-spelling', 'prop': 'C08', 'kind': 'benign', 'edits': [(HC, _INT_NEW,
-      "        response = yield from stream.read_response()\n\n        while response.status_code // 100 == 1 and response.status_code != 101:\n            response = yield from stream.read_response()\n\n        self._response = response\n        response.request = request\n")]},
+    {'id': 'C08/regress-interim-response-returned', 'prop': 'C08', 'kind': 'break', 'expect': 'C08-D2', 'edits': [(HC, _INT_NEW, _INT_OLD)]},
+    {'id': 'C04/regress-interim-response-returned', 'prop': 'C04', 'kind': 'break', 'expect': 'C04-D7', 'edits': [(HC, _INT_NEW, _INT_OLD)]},
+    {'id': 'C05/regress-interim-block-in-record', 'prop': 'C05', 'kind': 'break', 'expect': 'C05-D3', 'edits': [(HC, _INT_NEW, _INT_LOOP_ATTACHED)]},
+    {'id': 'C04/interim-buffer-not-emptied', 'prop': 'C04', 'kind': 'break', 'expect': 'C04-D4', 'edits': [(HC, _INT_NEW, _INT_NO_CLEAR)]},
+    {'id': 'C05/interim-buffer-not-emptied', 'prop': 'C05', 'kind': 'break', 'expect': 'C05-D3', 'edits': [(HC, _INT_NEW, _INT_NO_CLEAR)]},
+    {'id': 'C04/benign-interim-buffer-clear-method', 'prop': 'C04', 'kind': 'benign', 'edits': [(HC, "            del header_data[:]\n", "            header_data.clear()\n")]},
+    {'id': 'C05/benign-interim-buffer-clear-method', 'prop': 'C05', 'kind': 'benign', 'edits': [(HC, "            del header_data[:]\n", "            header_data.clear()\n")]},
 ]
